@@ -1,5 +1,4 @@
-(* C17, operation sequences on shared objects: in the model no operation modifies an existing object, except `+`
-   with a MultiSweep on the left (known finding multisweep-add-mutates-left). *)
+(* C17, operation sequences on shared objects: in the model no operation modifies an existing object. *)
 From Verif Require Import Base.Prelude Base.Index Model.Sweep Model.SweepSeq Proofs.SweepMulti.
 
 Lemma alloc_extends m : forall h, exists t, fst (alloc m h) = h ++ t.
@@ -24,22 +23,15 @@ Qed.
 Lemma nth_error_app_l {A} (l t : list A) k o : nth_error l k = Some o -> nth_error (l ++ t) k = Some o.
 Proof. intros H. rewrite nth_error_app1; [exact H|]. apply nth_error_Some. congruence. Qed.
 
-Definition mutating (h : heap) (slots : list nat) (op : mop) : Prop :=
-  match op with
-  | MAdd i _ => match slot_obj h slots i with Some (_, HMulti _) => True | _ => False end
-  | _ => False
-  end.
-
-(* every object that exists before the operation is the same object afterwards *)
+(* every object that exists before an operation is the same object afterwards *)
 Theorem step_preserves_objects h slots op h' id :
-  step h slots op = SNew h' id -> ~ mutating h slots op ->
-  forall k o, nth_error h k = Some o -> nth_error h' k = Some o.
+  step h slots op = SNew h' id -> forall k o, nth_error h k = Some o -> nth_error h' k = Some o.
 Proof.
-  intros Hs Hm k o Hk. destruct op as [i js|i j|i keys|i d]; cbn [step] in Hs.
+  intros Hs k o Hk. destruct op as [i js|i j|i keys|i d]; cbn [step] in Hs.
   - destruct (slot_sweep h slots i); [|discriminate]. destruct (optM' (slot_sweep h slots) js); [|discriminate].
     destruct (product s l); [|discriminate]. injection Hs as <- _. now apply nth_error_app_l.
-  - cbn [mutating] in Hm. destruct (slot_obj h slots i) as [[a [sa|ms]]|]; [| exfalso; now apply Hm | discriminate].
-    destruct (slot_obj h slots j) as [[b ob]|]; [|discriminate]. injection Hs as <- _. now apply nth_error_app_l.
+  - destruct (slot_obj h slots i) as [[a [sa|ms]]|]; [| |discriminate];
+      (destruct (slot_obj h slots j) as [[b [sb|ms']]|]; [| |discriminate]); injection Hs as <- _; now apply nth_error_app_l.
   - destruct (slot_obj h slots i) as [[a oa]|]; [|discriminate]. destruct (value h a); [|discriminate].
     destruct (mfiltered m keys) as [f|]; [|discriminate]. destruct (alloc_extends f h) as [t Ht].
     destruct (alloc f h) as [h2 id2]. cbn [fst] in Ht. injection Hs as <- _. rewrite Ht. now apply nth_error_app_l.
